@@ -13,6 +13,10 @@ def sessionStep (s : DState) : List String → Option (DState × String)
     match k.toNat?, decodeText hex with
     | some k, some t => some ({ s with statics := (k, t) :: s.statics }, "ok")
     | _, _ => some (s, "bad-op")
+  | ["unsyn", k] =>
+    match k.toNat? with
+    | some k => some ({ s with statics := s.statics.filter (fun e => e.1 != k) }, "ok")
+    | none => some (s, "bad-op")
   | ["cfg", "mask", m] =>
     match m.toNat? with
     | some m => some ({ s with mask := UInt32.ofNat m }, "ok")
